@@ -237,20 +237,6 @@ func (p *Prog) lockAnalysis(fn *ssa.Function, entry cfgSet, scope map[*ssa.Funct
 	return calleeCfgs
 }
 
-// heldAll reports the weakest mode in which key is held across all configurations (0 if some config lacks it).
-func heldAll(cs cfgSet, key string) int {
-	m := 3
-	for _, c := range cs {
-		if c.held[key] < m {
-			m = c.held[key]
-		}
-	}
-	if m == 3 {
-		return 0
-	}
-	return m
-}
-
 // leaked returns lock keys that are held and have no deferred unlock in some configuration.
 func leaked(cs cfgSet) []string {
 	set := map[string]bool{}
